@@ -5,8 +5,9 @@ other tools read. usage: tools/import_seeded3.py C09 1   (-> seeded/C09-m5)"""
 import json, os, shutil, sys
 
 prop, n = sys.argv[1], int(sys.argv[2])
-src = '/tmp/mut3/out/%s/m%d' % (prop, n)
-mid = '%s-m%d' % (prop, n + 4)
+rnd = int(os.environ.get('ROUND', '3'))  # round 3 -> m5/m6 from /tmp/mut3, round 4 -> m7/m8 from /tmp/mut4
+src = '/tmp/mut%d/out/%s/m%d' % (rnd, prop, n)
+mid = '%s-m%d' % (prop, n + 4 + 2 * (rnd - 3))
 dst = '/verif/seeded/' + mid
 r = json.load(open(src + '/recipe.json'))
 if os.path.isdir(dst):
@@ -19,14 +20,14 @@ if os.path.isdir(src + '/demo'):
     shutil.copytree(src + '/demo', dst + '/demo')
 meta = {
     'id': mid, 'property': prop,
-    'title': '%s / round 3 / m%d — %s' % (prop, n, r['title']),
+    'title': '%s / round %d / m%d — %s' % (prop, rnd, n, r['title']),
     'needs_to_manifest': r.get('needs_to_manifest', ''),
     'why_existing_tests_pass': r.get('why_existing_tests_pass', ''),
     'patch': 'patch.diff (source part only; regenerated fixtures are re-created with tools/regen_fixtures.sh when the patch touches generated output)',
     'patch_touches_generated_fixtures': bool(r.get('touches_generated_output')) and not r.get('apply_verbatim'),
     'apply_verbatim': bool(r.get('apply_verbatim')),
     'demonstration': {'files': r['files'], 'run_in_worktree': r['run_in_worktree'], 'expect': 'fails with the change, passes without'},
-    'origin': 'written by a sub-agent that saw only the property text (plus one line per earlier change of this property, to force a different mechanism) and a scratch worktree of /repo (third round)',
+    'origin': 'written by a sub-agent that saw only the property text (plus one line per earlier change of this property, to force a different mechanism) and a scratch worktree of /repo (round %d)' % rnd + '',
 }
 json.dump(meta, open(dst + '/meta.json', 'w'), indent=1, ensure_ascii=False)
 print('imported', mid, '-', r['title'])
